@@ -256,7 +256,10 @@ func (k Key) String() string {
 		}
 		return fmt.Sprintf("Ctrl+%c", val)
 	case k.Keycode <= unicode.MaxRune:
-		if k.Modifiers&ModCapsLock != 0 {
+		if k.Modifiers&ModCapsLock != 0 && k.Text != "" {
+			// Caps lock produced an uppercase character: that is what
+			// a binding for this key looks like. Without text (other
+			// modifiers are held) the binding is on the key itself
 			buf.WriteRune(unicode.ToUpper(k.Keycode))
 		} else {
 			buf.WriteRune(k.Keycode)
